@@ -56,8 +56,14 @@ def parseProto (j : Json) : Except String TProto := do
   let f ← natList j "float_data"
   let d ← natList j "double_data"
   let s ← natListList j "string_data"
+  let raw : Option (List Nat) := match j.getObjVal? "raw_data" with
+    | .ok v =>
+      match (do let a ← v.getArr?; a.toList.mapM (fun x => x.getNat?) : Except String (List Nat)) with
+      | .ok l => some l
+      | .error _ => none
+    | .error _ => none
   return { dataType := dt, dims, int32Data := i32, int64Data := i64, uint64Data := u64,
-           floatData := f, doubleData := d, stringData := s.map bytesOf }
+           floatData := f, doubleData := d, stringData := s.map bytesOf, rawData := raw }
 
 def optJson {α} (f : α → Json) : Option α → Json
   | none => Json.null
